@@ -324,6 +324,76 @@ def fitRun (es : EarlyStopping α) (evalFirst : Bool) (s : FitState W α) (cands
     Except PyErr (FitState W α) :=
   if s.st.stop then .ok s else fitLoop es evalFirst s cands
 
+/-! ### several stop sources in ONE fit
+
+The callback list of a `fit` may contain several `EarlyStopping` callbacks (other criteria, patience, periods, quantities)
+and other callbacks that ask for a stop (`nn_state.stop_training = True` in their own `on_epoch_end`, or at the end of a
+batch of that epoch, which `fit` lets reach the epoch-end dispatch: neural_state.py:626-633).  `on_epoch_end` is
+dispatched in list order; every callback sees the flag as the earlier ones left it; the loop tests the flag only after
+the whole dispatch (neural_state.py:632-634).  `EarlyStopping.on_epoch_end` only ever WRITES `True`
+(early_stopping.py:149-154): a request made earlier in the same dispatch stands. -/
+
+/-- a callback of the list other than the evaluator, as far as the stop flag is concerned: an `EarlyStopping`, or any
+other callback that assigns `nn_state.stop_training = True` at the end of the listed epochs (and does nothing at the
+others) -/
+inductive StopSrc (α : Type) where
+  | stopper (es : EarlyStopping α)
+  | request (epochs : List Int)
+
+/-- one source's `on_epoch_end`, given the flag as the earlier callbacks left it and the source's own `last_epoch` -/
+def StopSrc.onEpochEnd (src : StopSrc α) (ev : AnyEval W α) (stop : Bool) (last : Option Int) (e : Int) :
+    Except PyErr StopState :=
+  match src with
+  | .stopper es => es.onEpochEnd ev ⟨stop, last⟩ e
+  | .request eps => .ok ⟨stop || eps.contains e, last⟩
+
+/-- `on_epoch_end` of consecutive sources of the list (each paired with its own `last_epoch`), in list order; the stop
+flag is threaded through. Returns the sources with their new `last_epoch` and the flag after the last one. -/
+def srcsEpochEnd (ev : AnyEval W α) (e : Int) :
+    List (StopSrc α × Option Int) → Bool → Except PyErr (List (StopSrc α × Option Int) × Bool)
+  | [], stop => .ok ([], stop)
+  | (src, last) :: rest, stop =>
+    match src.onEpochEnd ev stop last e with
+    | .error err => .error err
+    | .ok st =>
+      match srcsEpochEnd ev e rest st.stop with
+      | .error err => .error err
+      | .ok (rest', stop') => .ok ((src, st.lastEpoch) :: rest', stop')
+
+/-- state of a run with several stop sources: the evaluator, the sources listed BEFORE it and AFTER it in the callback
+list (each with its own `last_epoch`), the stop flag, the epochs whose `on_epoch_end` dispatch completed -/
+structure MultiState (W α : Type) where
+  ev : AnyEval W α
+  before : List (StopSrc α × Option Int)
+  after : List (StopSrc α × Option Int)
+  stop : Bool
+  fired : List Int
+
+/-- `callbacks.on_epoch_end(self, ep)` for the list `before ++ [evaluator] ++ after`: the sources before the evaluator
+look at its history WITHOUT this epoch's evaluation, those after it see it -/
+def epochEndMulti (s : MultiState W α) (e : Int) (w : W) : Except PyErr (MultiState W α) :=
+  match srcsEpochEnd s.ev e s.before s.stop with
+  | .error err => .error err
+  | .ok (before', stop1) =>
+    match s.ev.onEpochEnd e w with
+    | .error err => .error err
+    | .ok ev' =>
+      match srcsEpochEnd ev' e s.after stop1 with
+      | .error err => .error err
+      | .ok (after', stop2) => .ok ⟨ev', before', after', stop2, s.fired ++ [e]⟩
+
+/-- the epoch loop of `fit` (neural_state.py:598-634) with several stop sources -/
+def fitLoopMulti : MultiState W α → List (Int × W) → Except PyErr (MultiState W α)
+  | s, [] => .ok s
+  | s, (e, w) :: rest =>
+    match epochEndMulti s e w with
+    | .error err => .error err
+    | .ok s' => if s'.stop then .ok s' else fitLoopMulti s' rest
+
+/-- `fit` with several stop sources: returns immediately when `stop_training` is already set (neural_state.py:558-559) -/
+def fitRunMulti (s : MultiState W α) (cands : List (Int × W)) : Except PyErr (MultiState W α) :=
+  if s.stop then .ok s else fitLoopMulti s cands
+
 end
 
 end QV.Cb
